@@ -16,10 +16,12 @@
    xattrs sorted by key.  [wf_fs]: ids below [next], every entry has a parent directory,
    directories have one name, the root is a directory.
    [links_consistent]: the names of one multiply-linked regular file carry one dentry.
-   Link groups (copier.inodes, os.Link) are covered for ONE literal source; with wildcard
-   sources the theorems need [no_link_groups] - that is where the known finding
-   hardlink-first-copy-overwritten lives.  Hence the hypothesis
-   [no_link_groups sroot \/ o_wild o = false] and the suffix _partial; see props/C15.json. *)
+   Link groups (copier.inodes, os.Link, forgetLinkSources): the EXACT inode partition
+   ("same group <-> same inode") is proved for one literal source and for wildcard sources
+   without link groups (hypothesis [no_link_groups sroot \/ o_wild o = false]); for wildcard
+   sources WITH link groups the dentries and "same inode -> same group" are proved
+   (copy_overlay_links), the converse is refuted (copy_overlay_partition_refuted: known finding
+   hardlink-group-split-after-overwrite).  See props/C15.json. *)
 From Coq Require Import List NArith Bool.
 From FS Require Import Sx Model.Path Model.SymMode Model.Copier Model.CopySpec
   Proofs.CopierP Proofs.CopyOpsP Proofs.CopyTopP Proofs.CopyThmP Proofs.CopyConflictP Proofs.CopyFaithP
@@ -28,10 +30,9 @@ Import ListNotations.
 Open Scope N_scope.
 Open Scope bool_scope.
 
-(* Full statement (copy_overlay): for every well-formed source tree — link groups AND wildcard
-   sources together included — and every destination:  the result of a successful Copy is
-   [overlay_all], the notifications are [xr_notifs], and a predicted error is the reported one.
-   Proved part: everything except wildcard sources combined with link groups. *)
+(* The result of a successful Copy is [overlay_all] - every dentry AND the exact inode
+   partition - and the notifications are [xr_notifs]; for one literal source (link groups
+   included) and for wildcard sources without link groups. *)
 Theorem copy_overlay_partial :
   forall o sroot, wf_src sroot -> links_consistent sroot -> no_link_groups sroot \/ o_wild o = false ->
   forall fs src dst r, wf_fs fs -> overlay_all o sroot (view_of_fs fs) src dst = inl r ->
@@ -40,17 +41,48 @@ Theorem copy_overlay_partial :
                 rev (c_notifs st') = xr_notifs r.
 Proof. exact copy_overlay_partial_proof. Qed.
 
-Theorem copy_error_partial :
-  forall o sroot, wf_src sroot -> links_consistent sroot -> no_link_groups sroot \/ o_wild o = false ->
+(* EVERY source, wildcards together with link groups included: every path carries exactly the
+   dentry the overlay demands ([match_at]: type, mode, owner, time, device, target, xattrs,
+   bytes), and two names share an inode only if the overlay puts them into one group
+   ([keys_sound]: a copy is never linked to a file of another group, nor to a foreign file -
+   what forgetLinkSources repairs); notifications as specified. *)
+Theorem copy_overlay_links :
+  forall o sroot, wf_src sroot -> links_consistent sroot ->
+  forall fs src dst r, wf_fs fs -> overlay_all o sroot (view_of_fs fs) src dst = inl r ->
+    exists st', copy_top o sel_all sroot fs src dst = (st', None) /\
+                (forall p, match_at (view_of_fs (c_fs st')) (xr_view r) p = true) /\
+                keys_sound (view_of_fs (c_fs st')) (xr_view r) /\
+                rev (c_notifs st') = xr_notifs r.
+Proof. exact copy_overlay_links_proof. Qed.
+
+(* ... but not the converse: with wildcards a later match can replace the recorded copy of a
+   link group while another name of it survives; the next member is copied afresh and the
+   group ends up on two inodes (every dentry right).  Real code: corpus/C13/group_split.case,
+   known finding hardlink-group-split-after-overwrite. *)
+Theorem copy_overlay_partition_refuted :
+  exists o sroot fs src dst,
+    wf_src sroot /\ links_consistent sroot /\ wf_fs fs /\
+    match overlay_all o sroot (view_of_fs fs) src dst with
+    | inl r =>
+      let V := view_of_fs (c_fs (fst (copy_top o sel_all sroot fs src dst))) in
+      snd (copy_top o sel_all sroot fs src dst) = None /\
+      ~ (forall p q, keys_at V (xr_view r) p q = true)
+    | inr _ => False
+    end.
+Proof. exact copy_overlay_partition_refuted_proof. Qed.
+
+(* every error the specification predicts is the error Copy reports (all sources) *)
+Theorem copy_error :
+  forall o sroot, wf_src sroot -> links_consistent sroot ->
   forall fs src dst xe, wf_fs fs -> overlay_all o sroot (view_of_fs fs) src dst = inr xe ->
     exists st' e, copy_top o sel_all sroot fs src dst = (st', Some e) /\ err_cls e = xerr_cls xe.
 Proof. exact copy_error_partial_proof. Qed.
 
 (* A directory meeting a non-directory (class 1: source directory over a non-directory, class 2:
    source non-directory over a directory) without always-replace: Copy fails with that class and
-   the obstacle is still at its path with the same dentry and the same inode. *)
-Theorem conflict_is_error_and_keeps_obstacle_partial :
-  forall o sroot, wf_src sroot -> links_consistent sroot -> no_link_groups sroot \/ o_wild o = false ->
+   the obstacle is still at its path with the same dentry and the same inode (all sources). *)
+Theorem conflict_is_error_and_keeps_obstacle :
+  forall o sroot, wf_src sroot -> links_consistent sroot ->
   forall fs src dst cls p bef, wf_fs fs ->
     overlay_all o sroot (view_of_fs fs) src dst = inr (XConflict cls p bef) ->
     o_replace o = false /\
@@ -71,7 +103,7 @@ Proof. exact always_replace_never_conflicts_proof. Qed.
 
 (* A successful Copy leaves a well-formed file system, so it can be copied onto again. *)
 Theorem copy_preserves_wf :
-  forall o sroot, wf_src sroot -> links_consistent sroot -> no_link_groups sroot \/ o_wild o = false ->
+  forall o sroot, wf_src sroot -> links_consistent sroot ->
   forall fs src dst st', wf_fs fs -> copy_top o sel_all sroot fs src dst = (st', None) -> wf_fs (c_fs st').
 Proof. exact copy_preserves_wf_proof. Qed.
 
@@ -122,24 +154,11 @@ Theorem copy_idempotent_partial :
                 end.
 Proof. exact copy_idempotent_partial_proof. Qed.
 
-(* The hypothesis [no_link_groups sroot \/ o_wild o = false] cannot be dropped: the model (and
-   the real code: corpus/C13/hardlink_stale.case, known finding hardlink-first-copy-overwritten)
-   violates the overlay for wildcard sources with a link group - copier.inodes keeps the first
-   destination PATH of a source inode, a later match overwrites that path, and the next member
-   of the group is linked to the wrong file. *)
-Theorem copy_overlay_refuted :
-  exists o sroot fs src dst,
-    wf_src sroot /\ links_consistent sroot /\ wf_fs fs /\
-    match overlay_all o sroot (view_of_fs fs) src dst with
-    | inl r => ~ view_matches (view_of_fs (c_fs (fst (copy_top o sel_all sroot fs src dst)))) (xr_view r)
-    | inr _ => False
-    end.
-Proof. exact copy_overlay_refuted_proof. Qed.
-
 Print Assumptions copy_overlay_partial.
-Print Assumptions copy_overlay_refuted.
-Print Assumptions copy_error_partial.
-Print Assumptions conflict_is_error_and_keeps_obstacle_partial.
+Print Assumptions copy_overlay_links.
+Print Assumptions copy_overlay_partition_refuted.
+Print Assumptions copy_error.
+Print Assumptions conflict_is_error_and_keeps_obstacle.
 Print Assumptions always_replace_never_conflicts.
 Print Assumptions copy_preserves_wf.
 Print Assumptions always_replace_source_wins_partial.
@@ -252,7 +271,21 @@ Example ex_link_group :
        | Some a, Some b, Some c, Some d => N.eqb a b && N.eqb b c && negb (N.eqb a d)
        | _, _, _, _ => false end) &&
       (match lstat (c_fs st') [n_d; n_g] with Some d => bytes_eqb (d_content d) [104; 105] | None => false end) &&
-      negb (c_stale st')
+      negb (c_split st')
+  | _, _ => false
+  end = true.
+Proof. vm_compute. reflexivity. Qed.
+
+(* the former finding hardlink-first-copy-overwritten, repaired: d1/f1 = d2/f2 one inode, d2/f1
+   another file, "d*/f?" to "/": /f2 now reads AAA and the whole overlay incl. the partition holds *)
+Example ex_stale_repaired :
+  match overlay_all o_wild_on ex_stale_src (view_of_fs fs_empty) stale_pat s_slash,
+        copy_top o_wild_on sel_all ex_stale_src fs_empty stale_pat s_slash with
+  | inl r, (st', None) =>
+      view_matches_b (view_of_fs (c_fs st')) (xr_view r) [ []; [n_f1]; [n_f2]; [n_d1]; [n_d2] ] &&
+      (match lstat (c_fs st') [n_f1], lstat (c_fs st') [n_f2] with
+       | Some a, Some b => bytes_eqb (d_content a) [66; 66; 66] && bytes_eqb (d_content b) [65; 65; 65]
+       | _, _ => false end) && negb (c_split st')
   | _, _ => false
   end = true.
 Proof. vm_compute. reflexivity. Qed.
